@@ -147,3 +147,26 @@ def summary(prop, jobs=16):
          "samples": [{"variant": r[0][1], "file": r[0][2], "expected_rule": r[0][5],
                       "result": r[1]} for r in results[:8]]}
   return out
+
+
+def stability(prop, jobs=8):
+  """Verdict of the property's rules on mechanically refactored copies of the current tree (the
+  behaviour-preserving transforms of sa/refactor.py). Recorded as evidence by the thorough tier;
+  it never changes the verdict about /repo. A rule that changes its verdict under a rename or a
+  flipped branch is a rule that matches spelling, not meaning."""
+  from . import refactor
+  def one(t):
+    tmp = tempfile.mkdtemp(prefix="vsb_")
+    try:
+      make_copy(tmp)
+      for rel in refactor.target_files(tmp, []):
+        refactor.rewrite(os.path.join(tmp, rel), t)
+      rc, out = run_check(prop, tmp)
+      return (t, {0: "same verdict", 1: "VIOLATION reported", 2: "could not decide"}.get(rc, "rc=%d" % rc))
+    except Exception as e:        # a transform that cannot be applied is not the rules' problem
+      return (t, "transform not applicable: %s" % e)
+    finally:
+      shutil.rmtree(tmp, ignore_errors=True)
+  with ThreadPoolExecutor(max_workers=jobs) as ex:
+    return dict(ex.map(one, sorted(refactor.TRANSFORMS)))
+
